@@ -42,6 +42,13 @@ func (e *Env) evalLoc(ex contract.Expr, single bool) modLoc {
 		if !ok {
 			e.fail("modifies: %T is not a pointer", base)
 		}
+		if _, isChan := bt.Ty.Underlying().(*types.Chan); isChan {
+			class, so := chanGhostSort(n.Name)
+			if so == nil {
+				e.fail("modifies: a channel has the ghost fields sent, nsent, closed")
+			}
+			return modLoc{Class: class, Ref: bt.T, Ghost: so, Text: text}
+		}
 		pt, ok := bt.Ty.Underlying().(*types.Pointer)
 		if !ok {
 			e.fail("modifies: base of .%s is not a pointer", n.Name)
